@@ -240,4 +240,14 @@ example : String.ofList (write exFmts exSys) =
 example : restore exFmts (write exFmts exSys) = .ok (exSys.persistentPart exFmts) ∧ exSys.persistentPart exFmts ≠ exSys :=
   ⟨C18_columns _ _ exSys_wf, by decide⟩
 
+/-- **the writer's formats** (regenerated from phase.cpp / data_format.cpp): positions and velocities with stream precision 8
+(`particleLine` uses `fmtP3s 8`), scalars with `%g` = 6 significant digits (`toStr` uses `fmtG 6`), integers with `%i`. -/
+theorem C18_writer_formats :
+    Sympler.Gen.Restart.writerPrecision = 8 ∧ Sympler.Gen.Restart.doubleFormat = "%g" ∧ Sympler.Gen.Restart.intFormat = "%i" ∧
+    (∀ (f : Format) (frozen : Bool) (p : Particle), particleLine f frozen p =
+      f.name ++ ' ' :: ((if frozen then wFrozen else wFree) ++ ' ' ::
+        (fmtP3s Sympler.Gen.Restart.writerPrecision p.r ++ ' ' ::
+          (fmtP3s Sympler.Gen.Restart.writerPrecision p.v ++ (tagTokens f.attrs p.tags ++ ['\n']))))) :=
+  ⟨rfl, by decide, by decide, fun _ _ _ => rfl⟩
+
 end Sympler.Restart
